@@ -489,7 +489,7 @@ static void c07_check_saved(const canon::Saved& sv, bool has_unknown, const std:
 }
 
 // every edit of the menu, applied to a fresh load of F, then saved raw and default
-static const char* C07_EDITS[] = {"none", "delete-block", "add-node", "add-shape", "delete-vertex", "rename", "add-extra-data", "set-texture", "convert", "clone-shape", "key-interpolation", "replace-block-same-type", "header-info"};
+static const char* C07_EDITS[] = {"none", "delete-block", "add-node", "add-shape", "delete-vertex", "rename", "add-extra-data", "set-texture", "convert", "clone-shape", "key-interpolation", "replace-block-same-type", "header-info", "recreate"};
 
 // every animation key group of a block: switch the interpolation type and add a key through the API
 template<class G>
@@ -590,6 +590,16 @@ static void c07_file_checks(const std::string& F, const std::string& keybase, co
 					auto o = hdr.GetBlock<NiObject>(id);
 					if (!o || dynamic_cast<NiGeometryData*>(o) || dynamic_cast<NiShape*>(o)) applied = false; // shapes / geometry data are linked through cached pointers
 					else hdr.ReplaceBlock(id, o->Clone());
+				}
+				else if (e == "recreate") {
+					// the object that held the loaded file is reused for a new model (Create), which gets a node and a shape
+					NiVersion v = hdr.GetVersion();
+					x.Create(v);
+					x.AddNode("Recreated", MatTransform());
+					std::vector<Vector3> vv = {Vector3(0, 0, 0), Vector3(1, 0, 0), Vector3(0, 1, 0)};
+					std::vector<Triangle> tt = {Triangle(0, 1, 2)};
+					std::vector<Vector2> uu = {Vector2(0, 0), Vector2(1, 0), Vector2(0, 1)};
+					x.CreateShapeFromData("RecreatedShape", &vv, &tt, &uu, nullptr);
 				}
 				else if (e == "header-info") {
 					// the header's free-text fields through their setters: export info of every length around the points where
